@@ -443,6 +443,49 @@ fn check_damaged(c: &Ctx, d: &Damage, out: &mut Outcome<C10Trace>) -> bool {
             }
         }
     }
+    // the entry point that does not return the remainder: `from_bytes_crc*`. Its consumed length
+    // is not observable, so it is taken from the real slice path on the same bytes.
+    out.evals += 1;
+    match (c.o.from)(&x, c.t.alg) {
+        Err(pmsg) => {
+            out.fail(
+                "C10",
+                "no-panic",
+                key("no-panic"),
+                format!("from_bytes_crc{} panicked on a damaged frame ({d:?}): {pmsg}", w * 8),
+                narrowed(),
+            );
+            return false;
+        }
+        Ok(Err(_)) => {}
+        Ok(Ok(_)) => {
+            let k = match sut::call(|| postcard::take_from_bytes::<DynOwned>(&x).map(|(_, rest)| x.len() - rest.len())) {
+                Ok(Ok(k)) => Some(k),
+                _ => None,
+            };
+            let ok = match k {
+                Some(k) if k + w <= x.len() => x[k..k + w] == le_bytes(bitwise_crc(c.alg, &x[..k]), w)[..],
+                _ => false,
+            };
+            if !ok {
+                out.fail(
+                    "C10",
+                    "converse",
+                    key("converse"),
+                    format!(
+                        "from_bytes_crc{} accepted {} bytes [{}] (damage {d:?}) although the bytes the value occupies ({:?}) are not followed by their {} checksum",
+                        w * 8,
+                        x.len(),
+                        hexs(&x),
+                        k,
+                        c.alg.name
+                    ),
+                    narrowed(),
+                );
+                return false;
+            }
+        }
+    }
     // fault accounting + signature
     let region = |bit_lo: usize, bit_hi: usize| -> u8 {
         let (pl, fl) = (c.plen * 8, c.flen * 8);
@@ -774,8 +817,8 @@ impl Scenario for C10 {
     }
     fn default_runs(tier: Tier) -> u64 {
         match tier {
-            Tier::Quick => 6_000,
-            Tier::Thorough => 400_000,
+            Tier::Quick => 40_000,
+            Tier::Thorough => 500_000,
         }
     }
     fn gen(rng: &mut Rng, tier: Tier, _run: u64) -> C10Trace {
